@@ -96,6 +96,7 @@ type input struct {
 	close           []byte // payload of the client's final alert record (0100 = close_notify, empty = none)
 	ops             [][]int
 	cut, chunk, buf int
+	more            []int // buffer sizes of the Read calls made after the first error
 }
 
 func decode(in hv.Val) input {
@@ -114,6 +115,9 @@ func decode(in hv.Val) input {
 		x.ops = append(x.ops, op)
 	}
 	x.cut, x.chunk, x.buf = int(hv.AsInt(l[4])), int(hv.AsInt(l[5])), int(hv.AsInt(l[6]))
+	for _, e := range hv.AsList(l[7]) {
+		x.more = append(x.more, int(hv.AsInt(e)))
+	}
 	return x
 }
 
@@ -183,8 +187,12 @@ func impl(in hv.Val) hv.Val {
 	if x.buf < 1 {
 		x.buf = 1
 	}
-	d, st, seq, _ := bfe_tls.VerifC42Receive(x.id, x.vers, tamper(x), x.chunk, x.buf)
-	return hv.L{hv.B(d), hv.I(st), hv.U(seq)}
+	d, st, seq, after, _, wst := bfe_tls.VerifC42Receive(x.id, x.vers, tamper(x), x.chunk, x.buf, x.more)
+	al := hv.L{}
+	for _, a := range after {
+		al = append(al, hv.LI([]int{a[0], a[1]}))
+	}
+	return hv.L{hv.B(d), hv.I(st), hv.U(seq), al, hv.I(wst)}
 }
 
 type suiteVer struct{ id, vers uint16 }
@@ -376,6 +384,9 @@ func gen(r *hv.Rng, i int, tier string) (string, hv.Val) {
 	if total > 3000 && x.buf < 64 {
 		x.buf = 64
 	}
+	for k := r.Intn(5); k > 0; k-- {
+		x.more = append(x.more, []int{1, 3, 5, 64, 1024, 4096, 20000}[r.Intn(7)])
+	}
 	return finish(class, x)
 }
 
@@ -403,7 +414,7 @@ func finish(class string, x input) (string, hv.Val) {
 	}
 	return class, hv.L{
 		hv.LI([]int{int(x.id), int(x.vers), kind, mac, bs, expl, ovh, x.pad, x.padx}),
-		ws, hv.B(x.close), ops, hv.I(x.cut), hv.I(x.chunk), hv.I(x.buf)}
+		ws, hv.B(x.close), ops, hv.I(x.cut), hv.I(x.chunk), hv.I(x.buf), hv.LI(x.more)}
 }
 
 // ---- structured stream: every (suite, version) x every tamper kind, and every CBC (suite, version) x
@@ -416,7 +427,7 @@ type matrixCase struct {
 
 var matrix []matrixCase
 
-const nKinds = 20
+const nKinds = 30
 
 func buildMatrix() {
 	for _, sv := range combos {
@@ -432,7 +443,7 @@ func buildMatrix() {
 						// SSLv3 + long padding: a garbled final all-padding block is accepted with probability
 						// 1/256 (POODLE); instead flip inside the padding (finding 2) and in the block before the
 						// last at the position of the length byte (rejected)
-						for _, k2 := range []int{8, 20, 21} {
+						for _, k2 := range []int{8, 30, 31} {
 							matrix = append(matrix, matrixCase{sv: sv, kind: k2, pad: ps[0], padx: ps[1]})
 						}
 						continue
@@ -459,6 +470,8 @@ func genMatrix(mc matrixCase, i int) (string, hv.Val) {
 	names := []string{"clean", "flip-type", "flip-vers-hi", "flip-vers-lo", "flip-len-hi", "flip-len-lo", "flip-len-lo1",
 		"flip-body-first", "flip-body-mid", "flip-body-last", "swap", "replay", "replay-later", "drop", "drop-last",
 		"forge-close", "trunc", "cut-boundary", "cut-header", "cut-body", "flip-pad-inner", "flip-pad-lenbyte"}
+	names = append(names[:20], "forge-app-0", "forge-app-1", "forge-app-nonce-1", "forge-app-nonce", "forge-app-mac-1", "forge-app-mac",
+		"forge-app-block", "trunc-0", "trunc-nonce-1", "trunc-mac", "flip-pad-inner", "flip-pad-lenbyte")
 	switch mc.kind {
 	case 1:
 		x.ops = [][]int{{1, t, 0, 2}} // 23 -> 21: application data relabelled as alert
@@ -501,15 +514,34 @@ func genMatrix(mc matrixCase, i int) (string, hv.Val) {
 		x.cut = len(recs[0]) + len(recs[1]) + 1 + i%4
 	case 19:
 		x.cut = len(recs[0]) + len(recs[1]) + 5 + i%bl
-	case 20: // last byte of the third block from the end: garbles that block, flips a bit in the next one
+	case 20, 21, 22, 23, 24, 25, 26: // forged application-data records at the length limits of decrypt
+		_, macSz, _, expl, ovh, _, _ := bfe_tls.VerifC42Params(mc.sv.id, mc.sv.vers)
+		lim := macSz
+		if lim == 0 {
+			lim = expl + ovh
+		}
+		nn := []int{0, 1, expl - 1, expl, lim - 1, lim, 16}[mc.kind-20]
+		if nn < 0 {
+			nn = 0
+		}
+		x.ops = [][]int{{5, t, 23, int(mc.sv.vers), nn}}
+	case 27:
+		x.ops = [][]int{{6, t, 0}}
+	case 28:
+		x.ops = [][]int{{6, t, 7}}
+	case 29:
+		_, macSz, _, _, _, _, _ := bfe_tls.VerifC42Params(mc.sv.id, mc.sv.vers)
+		x.ops = [][]int{{6, t, macSz}}
+	case 30: // last byte of the third block from the end: garbles that block, flips a bit in the next one
 		x.ops = [][]int{{1, t, 5 + bl - 2*bsz - 1, 1 << uint(i%8)}}
-	case 21: // last byte of the block before the final one: flips the padding length byte
+	case 31: // last byte of the block before the final one: flips the padding length byte
 		x.ops = [][]int{{1, t, 5 + bl - bsz - 1, 1 << uint(i%8)}}
 	}
 	x.chunk = []int{0, 1, 7}[i%3]
+	x.more = [][]int{{1, 4096, 7}, {20000, 1}, {5, 5, 5, 64}}[i%3]
 	return finish("m-"+names[mc.kind], x)
 }
 
 func main() {
-	hv.Main(&hv.Spec{Prop: "C42", Gen: gen, Impl: impl, Setup: setup, NQuick: 4500, NThorough: 300000})
+	hv.Main(&hv.Spec{Prop: "C42", Gen: gen, Impl: impl, Setup: setup, NQuick: 5500, NThorough: 300000})
 }
